@@ -1,10 +1,12 @@
 SPECIFICATION Spec
-CONSTANTS Pfx = {"A", "B"} MaxHops = 2 MaxCid = 2 QCap = 100 MaxDepth = 6 LeakDetached = FALSE AnyState = FALSE MaxInst = 2 Lifecycle = FALSE UnloadClears = FALSE CandInit = {TRUE, FALSE}
+CONSTANTS Pfx = {"A", "B"} MaxHops = 2 MaxCid = 2 QCap = 100 MaxDepth = 6 LeakDetached = FALSE AnyState = FALSE MaxInst = 2 Lifecycle = FALSE UnloadClears = FALSE CandInit = {TRUE, FALSE} CloseWays = {"closeR", "remove"} ReasonDecides = FALSE ReadyInit = FALSE
 INVARIANT TypeOK
 INVARIANT NoRawForAnon
 INVARIANT TunnelledOnlyOverReadyRightCircuit
 INVARIANT QueueBounded
 INVARIANT PlainUnaffected
 INVARIANT SwitchFollowsRequests
+INVARIANT StateFollowsClose
 PROPERTY ImplRefinesAbs
 PROPERTY PlainLeavesQueue
+PROPERTY ClosedForGood
